@@ -818,8 +818,28 @@ fn sml_generic<B: Buffer>(kind: &str, use_default: bool, mk: fn() -> sml_rs::Sml
             } else {
                 run_sml_calls(mk().from_iterator(&bytes), calls)
             };
-            if a != b || a != c {
-                format!("MISMATCH slice=[{}] iter=[{}] iterref=[{}]", a, b, c)
+            // iterators that do not know their length: size_hint (0, Some(n)) and (0, None)
+            let d = if use_default {
+                run_sml_calls(SmlReader::from_iterator(bytes.iter().copied().filter(|_| true)), calls)
+            } else {
+                run_sml_calls(mk().from_iterator(bytes.iter().copied().filter(|_| true)), calls)
+            };
+            let e = {
+                let mut i = 0usize;
+                let src = &bytes;
+                let it = std::iter::from_fn(move || {
+                    let r = src.get(i).copied();
+                    i += 1;
+                    r
+                });
+                if use_default {
+                    run_sml_calls(SmlReader::from_iterator(it), calls)
+                } else {
+                    run_sml_calls(mk().from_iterator(it), calls)
+                }
+            };
+            if a != b || a != c || a != d || a != e {
+                format!("MISMATCH slice=[{}] iter=[{}] iterref=[{}] iter-filter=[{}] iter-from_fn=[{}]", a, b, c, d, e)
             } else {
                 a
             }
